@@ -176,10 +176,27 @@ func (h *VHist) concreteValue(v interface{}) interface{} {
 		// nested entity: copy as is (ids inside are not tagged)
 		return model.Norm(t)
 	case []interface{}:
-		return model.Norm(t)
+		// arrays keep their Go types (ints stay ints, also in nested arrays): that is how a transform or a job sink
+		// hands values over; nested entities inside are normalised like above
+		return rawCopy(t)
 	default:
 		return v
 	}
+}
+
+func rawCopy(l []interface{}) []interface{} {
+	out := make([]interface{}, len(l))
+	for i, x := range l {
+		switch t := x.(type) {
+		case []interface{}:
+			out[i] = rawCopy(t)
+		case map[string]interface{}:
+			out[i] = model.Norm(t)
+		default:
+			out[i] = x
+		}
+	}
+	return out
 }
 
 // AbsContent maps an observed implementation entity back to abstract content.
